@@ -1789,6 +1789,7 @@ class CopyFlow:
         self.facts = facts
         self.by_decl = by_decl
         self.memo = {}
+        self.last_defects = {}
 
     def getter_member(self, n):
         """x.get_foo() / x.local() whose body is `return <own field>;` -> field name"""
@@ -1798,6 +1799,8 @@ class CopyFlow:
         st = f.body.get("s", [])
         if len(st) == 1 and st[0].get("k") == "Return":
             e = st[0].get("e") or {}
+            while e.get("k") in ("Construct", "TempObj", "Cast") and (len(e.get("a", [])) == 1 or e.get("e") is not None):
+                e = e["a"][0] if e.get("a") else e["e"]        # by-value return of a class-type member (copy construction)
             if e.get("k") == "Member" and (e.get("b") or {}).get("k") == "This" and e.get("field"):
                 return e["n"]
         return None
@@ -1834,8 +1837,16 @@ class CopyFlow:
                 g = self.getter_member(n)
                 if g is not None:
                     return {g} if self.is_src(o, src) else {"m:" + g}
+                if n.get("ccls") and n.get("ccls") != fn.cls and n["ccls"].startswith("std::"):
+                    return {"*"} if self.is_src(o, src) else {"m:<base>"}      # container interface of the base class
                 if self.is_src(o, src):
                     return {"?"}
+        if k == "MCall" and n.get("obj") is not None and n.get("a") and n.get("ccls") and n.get("ccls") != fn.cls and n["ccls"].startswith("std::"):
+            o = n["obj"]
+            if self.is_src(o, src):
+                return {"*"}          # other.at(i), other[i]
+            if o.get("k") == "This":
+                return {"m:<base>"}
         if k == "Ref":
             if n.get("d") in env:
                 return set(env[n["d"]])
@@ -1859,6 +1870,10 @@ class CopyFlow:
         T, unknown = {}, []
         env = {}         # local object / value -> tags or, for objects of the own class, a summary dict under key ('obj', decl)
         objs = {}
+        defects = {}     # member -> definite defect of its transfer (partial extent, wrong component)
+        elem = {}        # member -> {component: tags}, extent        (component-wise transfer of Tiny members)
+        extent = {}
+        ival = {}        # loop variable decl -> current constant value while a constant loop is unrolled
 
         def add(m, tg):
             if tg:
@@ -1934,8 +1949,91 @@ class CopyFlow:
                 out[m] = res
             return out, unk
 
+        def const_int(e):
+            if e is None:
+                return None
+            while e.get("k") == "Cast" and e.get("e") is not None:
+                e = e["e"]
+            if e.get("k") == "Int":
+                return int(e["v"])
+            if e.get("k") == "Ref" and e.get("d") in ival:
+                return ival[e["d"]]
+            if e.get("k") in ("Ref", "Member") and "v" in e:
+                return int(e["v"])
+            if e.get("k") == "Bin" and e.get("op") in ("+", "-"):
+                a_, b_ = const_int(e["lhs"]), const_int(e["rhs"])
+                if a_ is not None and b_ is not None:
+                    return a_ + b_ if e["op"] == "+" else a_ - b_
+            return None
+
+        def tiny_elem(e):
+            """`x[c]` / `x(c)` on a Tiny::Vector -> (base expr, component, extent) with a constant component, else None"""
+            if e.get("k") == "OpCall" and e.get("op") in ("[]", "()") and len(e.get("a", [])) == 2:
+                m_ = re.match(r"^FEAT::Tiny::Vector<[^,<>]+,\s*(\d+)", e.get("ccls", "") or "")
+                if m_:
+                    return e["a"][0], const_int(e["a"][1]), int(m_.group(1))
+            return None
+
+        def base_target(e):
+            """receiver chain rooted in *this (or a local object of the class) that goes through the container interface of a std:: base class"""
+            through_base = False
+            cur = e
+            for _ in range(12):
+                kk_ = cur.get("k")
+                if kk_ == "This":
+                    return ("this", "<base>") if through_base else None
+                if kk_ == "Ref":
+                    return ("obj", cur["d"]) if through_base and cur.get("d") in objs else None
+                if kk_ == "Member":
+                    cur = cur.get("b") or {}
+                elif kk_ == "MCall":
+                    if cur.get("ccls") and cur["ccls"] != fn.cls and cur["ccls"].startswith("std::"):
+                        through_base = True
+                    cur = cur.get("obj") or {"k": "This"}
+                elif kk_ == "OpCall" and cur.get("a"):
+                    if (cur.get("ccls") or cur.get("callee", "")).startswith("std::"):
+                        through_base = True
+                    cur = cur["a"][0]
+                elif kk_ in ("Un", "Cast"):
+                    if kk_ == "Cast" and "deque" in str(cur.get("to", "")) or kk_ == "Cast" and "BaseClass" in str(cur.get("to", "")):
+                        through_base = True
+                    cur = cur.get("e") or {}
+                else:
+                    return None
+            return None
+
+        def put_base(bt, tg):
+            if bt[0] == "this":
+                add("<base>", tg)
+            else:
+                objs[bt[1]].setdefault("<base>", set()).update(tg)
+
         def visit(n):
             kk = n.get("k")
+            if kk == "For":
+                init, c_, inc_ = n.get("init") or {}, n.get("c") or {}, n.get("inc") or {}
+                var = (init.get("vars") or [None])[0] if init.get("k") == "Decl" and len(init.get("vars", [])) == 1 else None
+                lo_ = const_int(var.get("init")) if var else None
+                hi_ = const_int(c_.get("rhs")) if c_.get("k") == "Bin" and c_.get("op") in ("<", "<=", "!=") and (c_.get("lhs") or {}).get("d") == (var or {}).get("d") else None
+                step = inc_.get("k") == "Un" and inc_.get("op") == "++" and (inc_.get("e") or {}).get("d") == (var or {}).get("d")
+                if var is not None and lo_ is not None and hi_ is not None and step and hi_ - lo_ <= 16:
+                    if c_["op"] == "<=":
+                        hi_ += 1
+                    for v_ in range(lo_, hi_):          # constant extent: unrolled, component-wise transfers are recorded per component
+                        ival[var["d"]] = v_
+                        visit(n["body"])
+                    ival.pop(var["d"], None)
+                    return
+                # data-dependent loop (iteration over a container): may-dataflow through one generic iteration
+                if init.get("k") == "Decl":
+                    visit(init)
+                visit(n["body"])
+                return
+            if kk == "ForRange":
+                v_ = n.get("var") or {}
+                env[v_.get("d")] = self.tags(n.get("range"), src, env, fn)
+                visit(n["body"])
+                return
             if kk == "Block":
                 for x in n.get("s", []):
                     visit(x)
@@ -1978,6 +2076,24 @@ class CopyFlow:
                 if m is not None:
                     add(m, self.tags(rhs, src, env, fn))
                     return
+                te = tiny_elem(lhs)
+                if te is not None and self.target_member(te[0]) is not None:
+                    m, comp, ext = self.target_member(te[0]), te[1], te[2]
+                    if comp is None:
+                        unknown.append("component index of `%s` is not a constant / unrolled loop variable" % render(lhs)[:60])
+                        return
+                    tg = self.tags(rhs, src, env, fn)
+                    for x in walk(rhs):
+                        t2 = tiny_elem(x)
+                        if t2 is not None and t2[1] is not None and t2[1] != comp and self.tags(t2[0], src, env, fn):
+                            defects[m] = "component %d of %s is taken from component %d of the source data (`%s`)" % (comp, m, t2[1], render(rhs)[:60])
+                    extent[m] = ext
+                    elem.setdefault(m, {}).setdefault(comp, set()).update(tg)
+                    return
+                bt = base_target(lhs)
+                if bt is not None:
+                    put_base(bt, self.tags(rhs, src, env, fn))
+                    return
                 lo_ = local_obj_member(lhs)
                 if lo_ is not None:
                     lo_[0].setdefault(lo_[1], set()).update(self.tags(rhs, src, env, fn))
@@ -1996,6 +2112,19 @@ class CopyFlow:
                         tg |= self.tags(a, src, env, fn)
                     add(m, tg - {"p:%s" % p["d"] for p in fn.params})
                     return
+                if (o.get("k") == "This" or (o.get("k") == "Ref" and o.get("d") in objs)) and n.get("ccls") and n["ccls"] != fn.cls and n["ccls"].startswith("std::"):
+                    tg = set()
+                    for a in n.get("a", []):
+                        tg |= self.tags(a, src, env, fn)
+                    put_base(("this", "<base>") if o.get("k") == "This" else ("obj", o["d"]), tg - {"p:%s" % p["d"] for p in fn.params})
+                    return
+                bt = base_target(o)
+                if bt is not None:
+                    tg = set()
+                    for a in n.get("a", []):
+                        tg |= self.tags(a, src, env, fn)
+                    put_base(bt, tg - {"p:%s" % p["d"] for p in fn.params})
+                    return
                 lo_ = local_obj_member(o)
                 if lo_ is not None:
                     tg = set()
@@ -2010,6 +2139,7 @@ class CopyFlow:
                     if callee is not None and copy_op_kind(callee) in ("clone(other)", "convert(other)") and args and self.is_src(args[0], src):
                         sub, unk = self.transfers(callee, callee.params[0]["d"])
                         unknown.extend(unk)
+                        defects.update(self.last_defects)
                         for mm, tg in sub.items():
                             objs[o["d"]].setdefault(mm, set()).update(tg)
                         return
@@ -2019,6 +2149,7 @@ class CopyFlow:
                     if callee is not None and copy_op_kind(callee) in ("clone(other)", "convert(other)") and args and self.is_src(args[0], src):
                         sub, unk = self.transfers(callee, callee.params[0]["d"])
                         unknown.extend(unk)
+                        defects.update(self.last_defects)
                         for mm, tg in sub.items():
                             add(mm, tg)
                         return
@@ -2052,6 +2183,23 @@ class CopyFlow:
 
         if fn.body is not None:
             visit(fn.body)
+        # component-wise transfers: every component 0..extent-1 must come from the same-named source member
+        for m, comps in elem.items():
+            n_ = extent[m]
+            missing = [c for c in range(n_) if c not in comps]
+            if missing:
+                defects.setdefault(m, "only the components %s of %s (extent %d) are transferred, components %s keep their old values" % (sorted(comps), m, n_, missing))
+                continue
+            bad = [c for c in range(n_) if m not in comps[c] and "*" not in comps[c]]
+            if bad and "?" in comps[bad[0]]:
+                unknown.append("source of component %d of %s not resolved" % (bad[0], m))
+                continue
+            if bad:
+                defects.setdefault(m, "component %d of %s is defined from the source's %s, not from its %s" % (bad[0], m, sorted(t for t in comps[bad[0]] if not t.startswith("p:")) or "nothing", m))
+                continue
+            if m not in defects:
+                add(m, {m})
+        self.last_defects = defects
         return T, unknown
 
 
@@ -2071,6 +2219,8 @@ def members_read_by_filters(facts, cls, by_decl):
                 g = by_decl.get(n.get("cdecl"))
                 if g is not None and g.body is not None:
                     work.append(g)
+            if n.get("k") == "MCall" and (n.get("obj") or {}).get("k") == "This" and n.get("ccls") and n["ccls"] != cls and n["ccls"].startswith("std::"):
+                mem.add("<base>")          # the filter is (derives from) a standard container: its elements are the state
     return mem
 
 
@@ -2131,8 +2281,12 @@ def analyse_copy_ops(ck, facts):
                 continue
             src = "this" if kind == "clone()" else f.params[0]["d"]
             T, unknown = flow.transfers(f, src)
+            defects = dict(flow.last_defects)
             for m in sorted(R_):
                 key = "%s/%s" % (key0, m)
+                if m in defects:
+                    ck.ob("C06.state-transfer", key, False, "%s: %s; the %s filters with different data than the original" % (kind, defects[m], "clone" if kind.startswith("clone") else "target"), f.file, f.line)
+                    continue
                 tg = T.get(m, set())
                 direct = m in tg or "*" in tg
                 derived = [t[8:] for t in tg if t.startswith("derived:")]
@@ -2405,6 +2559,6 @@ def finish(ck, wide):
             "(constant loops unrolled with break/continue as exit conditions, symbolic loops executed for one generic iteration with a loop-exit atom for `break`, comparisons decided by the loop ranges folded, path conditions as boolean formulae over canonical atoms) summarises each kernel / matrix filter "
             "as guarded stores and each filter method as kernel-call / axpy events with evaluated arguments. Rules: footprint and coverage of the stores (clause 1), role->kernel form with slot roles "
             "by callee parameter names (clause 2), idempotence by form and the slip projection identities in sympy for block sizes 2 and 3 (clause 3), unit/null matrix rows decided on the full truth table of the guards (clause 4), "
-            "mean-filter vector roles and the factor c-D/_volume (clause 5), MAP conformance of the five composition classes (clause 6). NOT decided: rounding ('zero mean up to rounding'), duplicate indices, rows without a stored diagonal, "
+            "mean-filter vector roles and the factor c-D/_volume (clause 5), MAP conformance of the five composition classes (clause 6). Additionally (driver tu/c06_copyops.cpp) the copy-like operations of all eleven filter classes: instantiability (E0.copy-ops) and sibling agreement C06.state-transfer - a may-dataflow from the members of the source object through constructor parameters, accessors, setters, sibling clone/convert delegation and std::swap to the members of the target; every member read by the class's filter_* methods must come from the same-named member in each operation. NOT decided: rounding ('zero mean up to rounding'), duplicate indices, rows without a stored diagonal, "
             "CUDA/MKL kernels, filter assembly (which entries are constrained), filter_offdiag_col_mat / filter_weak_matrix_rows, and whether SlipFilter::_sv really holds normals (assembler).")
     return ck.finish(expl, exhaustive=False)
